@@ -246,8 +246,8 @@ pub fn property() -> Property {
             prop_sub(
                 "async_connections",
                 "C07 connections in which 0..3 requests are aborted after a generated number of their records (during Params, inside / between / after their input streams), handlers reading / buffered-reading / not reading / already past end-of-stream, propagating errors or not, followed by 0..2 further requests; oracle = connection model + abort expectations; non-trivial = a handler got ConnectionAborted from an input operation and a later request was still served; distinct = hash of the case",
-                20_000,
-                600_000,
+                60_000,
+                1_500_000,
                 |_| async_strategy(),
                 test_async,
             ),
